@@ -256,6 +256,19 @@ func c08Check(w *World, s *Step, sa *SA, got *childKeys, res *callResult, uses i
 		}
 		w.ext["c08_held"] = hk
 	}
+	// the caller builds on the keys it was given (key | salt, key | SPI ...): appending to one returned key
+	// must not reach another one (checked when the held keys are read again at the end of the history)
+	for _, b := range [][]byte{got.Ei, got.Ai, got.Er, got.Ar} {
+		if len(b) > 0 {
+			_ = append(b, 0xee, 0xee, 0xee, 0xee, 0xee, 0xee, 0xee, 0xee)
+		}
+	}
+	for _, p := range [][2][]byte{{got.Ai, want.Ai}, {got.Er, want.Er}, {got.Ar, want.Ar}, {got.Ei, want.Ei}} {
+		if !bytes.Equal(p[0], p[1]) {
+			w.violate("returned_keys_share_memory", what, "appending 8 octets to one of the four returned Child SA keys changed another one")
+			break
+		}
+	}
 	if uses > 0 {
 		w.nontriv = true
 	}
